@@ -108,19 +108,50 @@ func c19RunProto(c *c19Case, in []byte, out *c19Out, m *c19Meter) {
 			}
 		}
 	case "client":
+		// What is judged is the handling of the MESSAGES: Initialize, ReadMessage and the body-size guards.
+		// Decoding a CHUNK's payload (zstd, chunk verification) is chunk decoding, not message parsing:
+		// pass A measures allocation over the message handling alone; pass B runs the real RequestChunk
+		// (panics there still kill the child) unmeasured, except for CHUNK payloads whose zstd frame header
+		// declares a large size, which are only observed (Decompress allocates what the header declares).
+		{
+			r := bytes.NewReader(in)
+			p := desync.NewProtocol(r, io.Discard)
+			var err error
+			m.measure(func() { _, err = p.Initialize(desync.CaProtocolPullChunks) })
+			for err == nil && r.Len() > 0 {
+				var msg desync.Message
+				m.measure(func() { msg, err = p.ReadMessage() })
+				if err == nil && !(msg.Type == desync.CaProtocolMissing || msg.Type == desync.CaProtocolChunk && len(msg.Body) >= 40) {
+					break
+				}
+			}
+		}
 		r := bytes.NewReader(in)
 		p := desync.NewProtocol(r, io.Discard)
-		var err error
-		m.measure(func() { _, err = p.Initialize(desync.CaProtocolPullChunks) })
-		if err != nil {
+		if _, err := p.Initialize(desync.CaProtocolPullChunks); err != nil {
 			out.Status, out.Err = "err", err.Error()
 			return
 		}
 		out.Status = "end"
 		for k := 0; r.Len() > 0; k++ {
-			m.measure(func() { _, err = p.RequestChunk(ids[k%len(ids)]) })
+			id := ids[k%len(ids)]
+			var err error
+			rest := in[len(in)-r.Len():]
+			if c19ZstdDeclared(c19FirstMessage(rest)) > 64<<10 {
+				out.Observed = "zstd-declared-size"
+				// the same steps as RequestChunk up to the payload
+				var msg desync.Message
+				if err = p.SendProtocolRequest(id, desync.CaProtocolRequestHighPriority); err == nil {
+					msg, err = p.ReadMessage()
+				}
+				if err == nil && (msg.Type != desync.CaProtocolChunk || len(msg.Body) < 40) {
+					err = fmt.Errorf("not a chunk")
+				}
+			} else {
+				_, err = p.RequestChunk(id)
+			}
 			switch err.(type) {
-			case nil, desync.ChunkInvalid: // a CHUNK reply; whether its payload decodes to the id is not the decoder's business here
+			case nil, desync.ChunkInvalid: // a CHUNK reply; whether its payload decodes to the id is not judged here
 				out.Items = append(out.Items, "chunk")
 				continue
 			case desync.ChunkMissing:
@@ -131,6 +162,21 @@ func c19RunProto(c *c19Case, in []byte, out *c19Out, m *c19Meter) {
 			break
 		}
 	}
+}
+
+// c19FirstMessage: the bytes of the first message of a stream, if it is complete.
+func c19FirstMessage(b []byte) []byte {
+	if len(b) < 16 {
+		return nil
+	}
+	l := uint64(0)
+	for i := 7; i >= 0; i-- {
+		l = l<<8 | uint64(b[i])
+	}
+	if l < 16 || l > uint64(len(b)) {
+		return nil
+	}
+	return b[:l]
 }
 
 // c19ProtoCases: client streams for the server, server streams for the client.
